@@ -31,28 +31,51 @@ type params struct {
 	Callers int
 	Draws   int // static only: draws per caller
 	Chunk   int // reader granularity: 0 = one line per Read, n = n bytes per Read
+	Defs    bool // default headers whose value slice has spare capacity (as three -header flags with one key build it); every target repeats that key
 }
 
 func (p params) name() string {
-	return fmt.Sprintf("%s,targets=%d,callers=%d,draws=%d,chunk=%d", p.Kind, p.Targets, p.Callers, p.Draws, p.Chunk)
+	s := fmt.Sprintf("%s,targets=%d,callers=%d,draws=%d,chunk=%d", p.Kind, p.Targets, p.Callers, p.Draws, p.Chunk)
+	if p.Defs {
+		s += ",defaults-with-spare-capacity"
+	}
+	return s
 }
 
 func method(i int) string { return []string{"GET", "POST", "PUT"}[i%3] }
 
-func httpDoc(n int) []string {
+func httpDoc(n int, defs bool) []string {
 	var lines []string
 	for i := 0; i < n; i++ {
-		lines = append(lines, fmt.Sprintf("%s http://h/%d\n", method(i), i), fmt.Sprintf("X-Id: %d\n", i), fmt.Sprintf("X-Two: t%d\n", i), "\n")
+		lines = append(lines, fmt.Sprintf("%s http://h/%d\n", method(i), i), fmt.Sprintf("X-Id: %d\n", i), fmt.Sprintf("X-Two: t%d\n", i))
+		if defs {
+			lines = append(lines, fmt.Sprintf("X-Def: own%d\n", i))
+		}
+		lines = append(lines, "\n")
 	}
 	return lines
 }
 
-func jsonDoc(n int) []string {
+func jsonDoc(n int, defs bool) []string {
 	var lines []string
 	for i := 0; i < n; i++ {
-		lines = append(lines, fmt.Sprintf(`{"method":"%s","url":"http://h/%d","header":{"X-Id":["%d"],"X-Two":["t%d"]}}`+"\n", method(i), i, i, i))
+		d := ""
+		if defs {
+			d = fmt.Sprintf(`,"X-Def":["own%d"]`, i)
+		}
+		lines = append(lines, fmt.Sprintf(`{"method":"%s","url":"http://h/%d","header":{"X-Id":["%d"],"X-Two":["t%d"]%s}}`+"\n", method(i), i, i, i, d))
 	}
 	return lines
+}
+
+// defaults: one key with three values in a slice of capacity 4
+func defaults(on bool) http.Header {
+	if !on {
+		return nil
+	}
+	v := make([]string, 0, 4)
+	v = append(v, "d1", "d2", "d3")
+	return http.Header{"X-Def": v}
 }
 
 // yieldReader hands out the document piecewise and yields before every Read.
@@ -108,9 +131,9 @@ func (w *world) main() {
 	var tr vegeta.Targeter
 	switch p.Kind {
 	case "http":
-		tr = vegeta.NewHTTPTargeter(&yieldReader{pieces: pieces(httpDoc(p.Targets), p.Chunk)}, nil, nil)
+		tr = vegeta.NewHTTPTargeter(&yieldReader{pieces: pieces(httpDoc(p.Targets, p.Defs), p.Chunk)}, nil, defaults(p.Defs))
 	case "json":
-		tr = vegeta.NewJSONTargeter(&yieldReader{pieces: pieces(jsonDoc(p.Targets), p.Chunk)}, nil, nil)
+		tr = vegeta.NewJSONTargeter(&yieldReader{pieces: pieces(jsonDoc(p.Targets, p.Defs), p.Chunk)}, nil, defaults(p.Defs))
 	case "static":
 		ts := make([]vegeta.Target, p.Targets)
 		for i := range ts {
@@ -137,7 +160,7 @@ func (w *world) main() {
 	}
 }
 
-func intact(t vegeta.Target) (int, string) {
+func intact(t vegeta.Target, defs bool) (int, string) {
 	var id int
 	if _, err := fmt.Sscanf(t.URL, "http://h/%d", &id); err != nil {
 		return -1, fmt.Sprintf("unparsable URL %q", t.URL)
@@ -151,7 +174,14 @@ func intact(t vegeta.Target) (int, string) {
 	if got := t.Header["X-Two"]; len(got) != 1 || got[0] != fmt.Sprintf("t%d", id) {
 		return id, fmt.Sprintf("target %d has X-Two %v", id, got)
 	}
-	if len(t.Header) != 2 {
+	want := 2
+	if defs {
+		want = 3
+		if got := t.Header["X-Def"]; fmt.Sprint(got) != fmt.Sprintf("[d1 d2 d3 own%d]", id) {
+			return id, fmt.Sprintf("target %d has X-Def %v", id, got)
+		}
+	}
+	if len(t.Header) != want {
 		return id, fmt.Sprintf("target %d has headers %v", id, t.Header)
 	}
 	return id, ""
@@ -177,7 +207,7 @@ func (w *world) end(s *vsched.Sched, r *vsched.Result) (string, string) {
 				}
 				continue
 			}
-			id, bad := intact(d.T)
+			id, bad := intact(d.T, p.Defs)
 			if bad != "" {
 				return "a target was mixed up / altered: " + bad, "mixed"
 			}
@@ -248,6 +278,9 @@ func plans() []plan {
 				ps = append(ps, plan{params{Kind: kind, Targets: targets, Callers: callers}, bound})
 			}
 		}
+		// default headers with spare capacity, every target repeating the key: targets handed to different callers must not share memory
+		ps = append(ps, plan{params{Kind: kind, Targets: 2, Callers: 2, Defs: true}, -1})
+		ps = append(ps, plan{params{Kind: kind, Targets: 3, Callers: 2, Defs: true}, -1})
 		// byte-granular reader: scheduling points in the middle of lines
 		ps = append(ps, plan{params{Kind: kind, Targets: 2, Callers: 2, Chunk: 7}, ev.Pick(2, 3)})
 		ps = append(ps, plan{params{Kind: kind, Targets: 2, Callers: 2, Chunk: 25}, ev.Pick(3, -1)})
@@ -368,4 +401,35 @@ func raceCompanion(R *ev.Run) {
 		}
 	}
 	R.Set("race_companion", res)
+	if ev.Thorough() {
+		longHistory(R)
+	}
+}
+
+// longHistory (thorough): the static targeter's rotation across 2^32 draws, plain build (../c15race TestLongHistoryC15).
+func longHistory(R *ev.Run) {
+	args := []string{"test", "-v", "-count=1", "-vet=off", "-timeout=60m", "-run", "^TestLongHistoryC15$", "./c15race"}
+	if mf := os.Getenv("VERIF_MODFILE"); mf != "" {
+		args = append([]string{"test", "-modfile=" + mf}, args[1:]...)
+	}
+	cmd := exec.Command("go", args...)
+	cmd.Dir = os.Getenv("VERIF_DIR") + "/harness"
+	cmd.Env = append(os.Environ(), "VERIF_TIER=thorough")
+	out, err := cmd.CombinedOutput()
+	so := string(out)
+	res := map[string]any{"ok": err == nil}
+	for _, l := range strings.Split(so, "\n") {
+		if strings.HasPrefix(l, "LONG-HISTORY:") {
+			res["summary"] = l
+		}
+	}
+	if i := strings.Index(so, "LONG-HISTORY-VIOLATION"); i >= 0 {
+		R.Violation("static:long-history:rotation-broken-around-2^32-draws", map[string]any{"output": ev.Trunc(so[i:], 400)})
+	} else if err != nil {
+		R.Cap("long-history run could not complete: " + ev.Trunc(so, 300))
+	} else {
+		R.Trans(1 << 32)
+		R.Eval(1)
+	}
+	R.Set("long_history", res)
 }
